@@ -125,6 +125,10 @@ class PathInfeasible(Exception):
     pass
 
 
+class PathEnd(Exception):
+    """The path ends here on purpose (after the inductive step of a loop cut)."""
+
+
 # ----------------------------------------------------------------------------------------------------------- path state
 
 
@@ -188,6 +192,17 @@ class Path:
                 arg = z3.ToReal(arg)
             # term-directed instances of: log 1 = 0, log strictly increasing through 1
             self.solver.add(z3.Implies(arg == 1, e == 0), z3.Implies(arg > 1, e > 0), z3.Implies(z3.And(arg > 0, arg < 1), e < 0))
+        elif a.kind == "app" and a.name == "BigSum":
+            # a sum of products of exponentials / even powers is >= 0, and > 0 over a non-empty index range
+            dep = a.args[1]
+            pos = all(all((at.kind == "app" and at.name == "Exp") or pw % 2 == 0 for at, pw in m) for m in dep.terms) and all(c > 0 for c in dep.terms.values())
+            if pos:
+                e = alg.atom_to_z3(a, self.zcache)
+                n = alg.to_z3(a.args[2], self.zcache)
+                strictly = all(all(at.kind == "app" and at.name == "Exp" for at, pw in m) for m in dep.terms)
+                self.solver.add(e >= 0)
+                if strictly:
+                    self.solver.add(z3.Implies(n > 0, e > 0))
         elif a.kind == "app" and a.name == "LGamma":
             e = alg.atom_to_z3(a, self.zcache)
             arg = alg.to_z3(a.args[0], self.zcache)
@@ -292,6 +307,8 @@ def explore(run, max_paths=20000, timeout_ms=20000):
             p.outcome = ("ok", run(p))
         except PathInfeasible:
             p.outcome = ("infeasible", None)
+        except PathEnd:
+            p.outcome = ("cut", None)
         except PyRaise as e:
             p.outcome = ("raise", e.what)
         n += 1
@@ -597,11 +614,14 @@ class Interp:
         if self.registry is not None and name in self.registry.globals_override:
             return self.registry.globals_override[name]
         r = fr.module.resolve(name) if fr.module is not None else None
+        from pyvc import builtins_model as B
+
         if r is not None:
             if isinstance(r, tuple) and r[0] == "const":
                 return r[1]
+            if isinstance(r, ExternalRef) and r.dotted in B.EXTERNAL:
+                return B.EXTERNAL[r.dotted]
             return r
-        from pyvc import builtins_model as B
 
         if name in B.BUILTINS:
             return B.BUILTINS[name]
@@ -1182,6 +1202,10 @@ class Interp:
                 self.unsupported(node, "del target")
 
     def s_For(self, node, fr):
+        inv = self.registry.loop_invariant(self, node, self.loop_ordinal(fr, node)) if self.registry is not None else None
+        if inv is not None:
+            inv(self, node, fr)
+            return
         it = self.eval(node.iter, fr)
         if isinstance(it, Model) and hasattr(it, "for_loop"):
             it.for_loop(self, node, fr)
@@ -1197,8 +1221,19 @@ class Interp:
         else:
             self.exec_block(node.orelse, fr)
 
+    def loop_ordinal(self, fr, node):
+        if fr.func is None:
+            return None
+        k = 0
+        for n in ast.walk(fr.func.node):
+            if isinstance(n, (ast.For, ast.While)):
+                if n is node:
+                    return k
+                k += 1
+        return None
+
     def s_While(self, node, fr):
-        inv = self.registry.loop_invariant(self, node) if self.registry is not None else None
+        inv = self.registry.loop_invariant(self, node, self.loop_ordinal(fr, node)) if self.registry is not None else None
         if inv is not None:
             inv(self, node, fr)
             return
